@@ -1,0 +1,98 @@
+//go:build verif
+// +build verif
+
+package gocql
+
+import (
+	"net"
+)
+
+// This file exists only in builds with the "verif" tag. It gives the
+// deterministic simulator what the package-internal policy tests use: hosts with
+// a chosen datacenter/rack/token set, a token-aware policy wired to a stubbed
+// schema source instead of a Session, queries with a routing key, and a
+// read-only view of the replica list the policy computed. It changes no
+// behaviour.
+
+// VerifNewHost builds a HostInfo the way policies_test.go does with struct literals.
+func VerifNewHost(hostID string, addr net.IP, port int, dc, rack string, tokens []string, up bool) *HostInfo {
+	h := &HostInfo{
+		hostId:         hostID,
+		connectAddress: addr,
+		port:           port,
+		dataCenter:     dc,
+		rack:           rack,
+		tokens:         append([]string(nil), tokens...),
+		state:          NodeUp,
+	}
+	if !up {
+		h.state = NodeDown
+	}
+	return h
+}
+
+// VerifSetState is HostInfo.setState (what Session.handleNodeConnected /
+// handleNodeDown do before they notify the policy).
+func (h *HostInfo) VerifSetState(up bool) {
+	if up {
+		h.setState(NodeUp)
+	} else {
+		h.setState(NodeDown)
+	}
+}
+
+// VerifTokenAwareWire sets what tokenAwareHostPolicy.Init takes from the Session:
+// the session keyspace name and the keyspace-metadata source. It reports false if p is
+// not a token-aware policy.
+func VerifTokenAwareWire(p HostSelectionPolicy, keyspaceName func() string, meta func(keyspace string) (*KeyspaceMetadata, error)) bool {
+	t, ok := p.(*tokenAwareHostPolicy)
+	if !ok {
+		return false
+	}
+	t.mu.Lock()
+	t.getKeyspaceName = keyspaceName
+	t.getKeyspaceMetadata = meta
+	if t.logger == nil {
+		t.logger = nopLogger{}
+	}
+	t.mu.Unlock()
+	return true
+}
+
+// VerifNewQuery builds a session-less query as policies_test.go does. With a nil
+// routing key the query looks like one created by Session.Bind whose values are not
+// bound yet (GetRoutingKey returns nil, nil without consulting a session).
+func VerifNewQuery(keyspace string, routingKey []byte) *Query {
+	q := &Query{routingInfo: &queryRoutingInfo{}}
+	q.getKeyspace = func() string { return keyspace }
+	if routingKey != nil {
+		q.routingKey = routingKey
+	} else {
+		q.binding = func(*QueryInfo) ([]interface{}, error) { return nil, nil }
+	}
+	return q
+}
+
+// VerifTokenAwareReplicas returns the replica list tokenAwareHostPolicy.Pick starts
+// from for (keyspace, routingKey), before shuffling: the entry of the policy's replica
+// map for the key's token, or - when the keyspace has no replica map - the owner of the
+// token alone. routed is false when Pick would go straight to the fallback policy
+// (p is not token aware, no partitioner/token ring yet). fromStrategy tells which of
+// the two sources was used. The returned slice is a copy.
+func VerifTokenAwareReplicas(p HostSelectionPolicy, keyspace string, routingKey []byte) (replicas []*HostInfo, fromStrategy, routed bool) {
+	t, ok := p.(*tokenAwareHostPolicy)
+	if !ok || routingKey == nil {
+		return nil, false, false
+	}
+	meta := t.getMetadataReadOnly()
+	if meta == nil || meta.tokenRing == nil {
+		return nil, false, false
+	}
+	token := meta.tokenRing.partitioner.Hash(routingKey)
+	ht := meta.replicas[keyspace].replicasFor(token)
+	if ht == nil {
+		host, _ := meta.tokenRing.GetHostForToken(token)
+		return []*HostInfo{host}, false, true
+	}
+	return append([]*HostInfo(nil), ht.hosts...), true, true
+}
